@@ -95,8 +95,22 @@ static void case_perfpow(ByteSource& in, CaseInfo& ci) {
 }
 
 // ---- exhaustive sweep: every u in [0, 2^16) (and -u for odd root indices) -----------------------------------------------
-static uint64_t sweep_count() { return 65536; }
+// second sweep domain: every value of up to four limbs with limbs from {0,1,2^63-1,2^63,2^64-2,2^64-1} (1296 values: k*B^j, B^j-1, all-ones ...)
+static void sweep_palette(uint64_t i, CaseInfo& ci) {
+  Int U = palette_int(i, 4); ci.d("palette u=%s", show(U).c_str()); Z u, r, m; mpz_from_int(u, U); Int S = ref::isqrt(U);
+  mpz_sqrt(r, u); REQUIRE_WF(r, "mpz_sqrt"); REQUIRE(int_from_mpz(r) == S, "mpz_sqrt(%s)", show(U).c_str()); mpz_sqrtrem(r, m, u); REQUIRE_WF(m, "mpz_sqrtrem"); REQUIRE(int_from_mpz(r) == S && int_from_mpz(m) == U - S * S, "mpz_sqrtrem(%s)", show(U).c_str());
+  REQUIRE((mpz_perfect_square_p(u) != 0) == (S * S == U), "mpz_perfect_square_p(%s)", show(U).c_str());
+  if (!U.is_zero()) { size_t n = U.m.size(); std::vector<uint64_t> sq((n + 1) / 2 + 1), rm(n + 1); mp_size_t rn = mpn_sqrtrem(sq.data(), rm.data(), U.m.data(), (mp_size_t)n); REQUIRE(Int::from_limbs(sq.data(), (n + 1) / 2) == S && Int::from_limbs(rm.data(), (size_t)rn) == U - S * S, "mpn_sqrtrem(%s)", show(U).c_str());
+    REQUIRE((mpn_perfect_square_p(U.m.data(), (mp_size_t)n) != 0) == (S * S == U), "mpn_perfect_square_p(%s)", show(U).c_str()); }
+  REQUIRE((mpz_perfect_power_p(u) != 0) == ref_perfect_power(U), "mpz_perfect_power_p(%s)", show(U).c_str()); mpz_neg(m, u); REQUIRE((mpz_perfect_power_p(m) != 0) == ref_perfect_power(-U), "mpz_perfect_power_p(-%s)", show(U).c_str());
+  static const uint64_t NS[] = {1, 2, 3, 4, 5, 7, 8, 63, 64, 65, 127, 128, 129, 192, 255, 256, 257, 1ull << 32, ~0ull};
+  for (uint64_t n : NS) { Int R = ref::iroot(U, n), Rem = U - ref::pow(R, n); int ex = mpz_root(r, u, n); REQUIRE_WF(r, "mpz_root"); REQUIRE(int_from_mpz(r) == R && (ex != 0) == Rem.is_zero(), "mpz_root(%s, %llu)", show(U).c_str(), (unsigned long long)n);
+    mpz_rootrem(r, m, u, n); REQUIRE_WF(m, "mpz_rootrem"); REQUIRE(int_from_mpz(r) == R && int_from_mpz(m) == Rem, "mpz_rootrem(%s, %llu)", show(U).c_str(), (unsigned long long)n); mpz_nthroot(r, u, n); REQUIRE(int_from_mpz(r) == R, "mpz_nthroot(%s, %llu)", show(U).c_str(), (unsigned long long)n);
+    if (n & 1) { Z nu; mpz_neg(nu, u); ex = mpz_root(r, nu, n); REQUIRE(int_from_mpz(r) == -R && (ex != 0) == Rem.is_zero(), "mpz_root(-%s, %llu)", show(U).c_str(), (unsigned long long)n); mpz_rootrem(r, m, nu, n); REQUIRE(int_from_mpz(r) == -R && int_from_mpz(m) == -Rem, "mpz_rootrem(-%s, %llu)", show(U).c_str(), (unsigned long long)n); } }
+}
+static uint64_t sweep_count() { return 65536 + 1296; }
 static void sweep_item(uint64_t i, CaseInfo& ci) {
+  if (i >= 65536) { sweep_palette(i - 65536, ci); return; }
   ci.d("u=%llu", (unsigned long long)i); Int U = Int::from_u64(i); Z u, r, m; mpz_set_ui(u, i); Int S = ref::isqrt(U);
   mpz_sqrt(r, u); REQUIRE(int_from_mpz(r) == S, "mpz_sqrt(%llu)", (unsigned long long)i); mpz_sqrtrem(r, m, u); REQUIRE(int_from_mpz(r) == S && int_from_mpz(m) == U - S * S, "mpz_sqrtrem(%llu)", (unsigned long long)i);
   REQUIRE((mpz_perfect_square_p(u) != 0) == (S * S == U), "mpz_perfect_square_p(%llu)", (unsigned long long)i);
@@ -111,5 +125,5 @@ namespace eng {
 PropDef g_prop = {"C09",
   "Cases: u = k^n + delta (delta in {0,+-1,+-2,random}; k with long runs of ones, 2^j, 2^j-1, small k; n = 2, 3..7, 8..70, up to beyond the bit length of u, and now and then up to the largest unsigned long) or random u; mpz_sqrt / mpz_sqrtrem (outputs aliasing the operand) / mpn_sqrtrem (r2p separate, == sp, NULL; odd and even limb counts) / mpz_perfect_square_p (also negative) / mpn_perfect_square_p; mpz_root / mpz_nthroot / mpz_rootrem for n>=1 and negative u with odd n; mpz_perfect_power_p on powers, near-misses, p^i*q^j, all |u| <= 70000, negative values. Oracle: refint integer roots (Newton, verified by s^2<=u<(s+1)^2 in the self-test), remainder u - root^n, exactness flag <=> remainder 0, perfect power by root extraction over all prime exponents. Non-trivial: u >= 2 limbs or n beyond the bit length. Distinct = hash of all decoded choices.",
   check, nullptr, {"exact_power", "power_minus_1", "power_plus_1", "n_gt_bits", "huge_root_index", "negative_odd_root", "odd_limb_count", "sqrtrem:r2p==sp", "sqrtrem:r2p==NULL", "perfpow:true", "perfpow:smooth_common_multiplicity", "perfpow:negative_true", "ge_rootrem_threshold"}, nullptr, sweep_count, sweep_item,
-  "every u in [0,2^16): mpz_sqrt, mpz_sqrtrem, mpn_sqrtrem, mpz/mpn_perfect_square_p, mpz_perfect_power_p of u and -u, mpz_root/rootrem/nthroot for n = 1..18 (and of -u for odd n)"};
+  "every u in [0,2^16): mpz_sqrt, mpz_sqrtrem, mpn_sqrtrem, mpz/mpn_perfect_square_p, mpz_perfect_power_p of u and -u, mpz_root/rootrem/nthroot for n = 1..18 (and of -u for odd n); plus every value of up to four limbs with limbs from {0,1,2^63-1,2^63,2^64-2,2^64-1} (1296 values): sqrt, sqrtrem, mpn_sqrtrem, perfect_square_p, perfect_power_p (also negated), root/rootrem/nthroot for n in {1..5,7,8,63..65,127..129,192,255..257,2^32,2^64-1} (and of -u for odd n)"};
 }
